@@ -30,13 +30,17 @@ func init() {
 
 // ---- linear forms over field atoms ---------------------------------------------------------
 
-// fieldPath: v is a load of recv.f1.f2... (pointer fields followed); returns "f1.f2".
+// fieldPath: v is a load of recv.f1.f2... (pointer fields and embedded structs followed); returns "f1.f2".
 func fieldPath(v ssa.Value) (string, bool) {
 	u, ok := v.(*ssa.UnOp)
 	if !ok || u.Op != token.MUL {
 		return "", false
 	}
-	fa, ok := u.X.(*ssa.FieldAddr)
+	return addrPath(u.X)
+}
+
+func addrPath(a ssa.Value) (string, bool) {
+	fa, ok := a.(*ssa.FieldAddr)
 	if !ok {
 		return "", false
 	}
@@ -44,6 +48,10 @@ func fieldPath(v ssa.Value) (string, bool) {
 	switch x := fa.X.(type) {
 	case *ssa.Parameter:
 		return name, true
+	case *ssa.FieldAddr:
+		if p, ok := addrPath(x); ok {
+			return p + "." + name, true
+		}
 	case *ssa.UnOp:
 		if p, ok := fieldPath(x); ok {
 			return p + "." + name, true
@@ -838,6 +846,40 @@ func ruleGfs4(c *Ctx, r *Reporter) {
 		}
 		// the error of the chunk deletion is checked
 		r.check(len(errChecksOf(errorResult(chunkDel))) > 0, "Delete:chunk deletion error", c.pos(chunkDel.Pos()), "the error of DeleteMany is examined", "the error of the chunk deletion is dropped")
+	}
+	// ---- Cleanup: files, chunks and markers are addressed by the right ids of the marker ----
+	if cleanup := c.lookupSSA(pkgLungo, "Bucket.Cleanup"); cleanup == nil {
+		r.bad("anchor:Bucket.Cleanup", "-", "not found")
+	} else {
+		markerT := c.lookupType(pkgLungo, "BucketMarker")
+		isMarkerField := func(v ssa.Value, name string) bool {
+			u, ok := v.(*ssa.UnOp)
+			if !ok || u.Op != token.MUL {
+				return false
+			}
+			fa, ok := u.X.(*ssa.FieldAddr)
+			return ok && derefNamed(fa.X.Type()) == markerT && structFieldOf(fa).Name() == name
+		}
+		nc := 0
+		for _, m := range []string{"DeleteMany", "DeleteOne"} {
+			for _, cc := range find(cleanup, m) {
+				want := ""
+				switch {
+				case strings.HasSuffix(cc.coll, "chunks") && cc.key == "files_id":
+					want = "File"
+				case strings.HasSuffix(cc.coll, "files") && cc.key == "_id":
+					want = "File"
+				case strings.HasSuffix(cc.coll, "markers") && cc.key == "_id":
+					want = "ID"
+				default:
+					continue
+				}
+				nc++
+				key := fmt.Sprintf("Cleanup:%s %s by marker.%s", cc.coll[strings.LastIndex(cc.coll, ".")+1:], m, want)
+				r.check(isMarkerField(cc.val, want), key, c.pos(cc.call.Pos()), "filtered by marker."+want, fmt.Sprintf("the %s filter is not marker.%s: the call matches nothing (or something else) and the chunks / records of the cleaned-up upload stay behind", cc.key, want))
+			}
+		}
+		r.guard(nc, 3, "delete calls in Bucket.Cleanup")
 	}
 	// ---- Abort ----
 	var abDel *ssa.Call
